@@ -341,6 +341,7 @@ def run(ctx):
     bom_table(ctx)
     label_decoding(ctx)
     bom_read_and_seek(ctx)
+    content_charset_grammar(ctx)
 
 
 def bom_table(ctx):
@@ -539,6 +540,36 @@ def meta_rules(ctx):
                 "`charset= \"utf-8\"` yields an empty / wrong label", detail={"skip_before_quote_test": eq_tests[0].id not in par})
 
 
+def content_charset_grammar(ctx):
+    """C06.14: "extracting a character encoding from a meta element": an unquoted charset value ends at ASCII white space *or*
+    `;`; and when `charset` is not followed by `=`, the search continues with the next occurrence of `charset`."""
+    r = ctx.r
+    ce = ctx.ce
+    r.rule("C06.14", "content= charset extraction: unquoted value ends at white space or ';'; the search loops to the next `charset`", floor=2)
+    h = ctx.repo.func(REL, "ContentAttrParser.parse")
+    sk = [c for c in ast.walk(h.node) if isinstance(c, ast.Call) and norm(c.func).endswith("skipUntil") and c.args]
+    if len(sk) != 1:
+        r.idiom("C06.14", False, "unquoted-value-terminators", h.where, "ContentAttrParser.parse: the unquoted-value scan was not found")
+    else:
+        stop = ce.try_eval(sk[0].args[0], h.module)
+        ws = {b"\t", b"\n", b"\x0c", b"\r", b" "}
+        if not isinstance(stop, (set, frozenset)):
+            r.idiom("C06.14", False, "unquoted-value-terminators", "%s:%d" % (REL, sk[0].lineno), "the terminator set is not constant")
+        else:
+            r.check("C06.14", ws <= set(stop) and b";" in stop, "unquoted-value-terminators", "%s:%d" % (REL, sk[0].lineno),
+                    "an unquoted charset value in content= is ended by %s only; the standard also ends it at ';': "
+                    "content=\"text/html; charset=utf-8;format=flowed\" yields the label 'utf-8;format=flowed', the lookup fails and the "
+                    "declaration is ignored (by the prescan and by the late <meta> alike)" % sorted(stop), detail={"terminators": sorted(stop)})
+    # the "no = after charset" exit: a return inside a loop that looks for the next occurrence, not a plain give-up
+    eq = [n for n in ast.walk(h.node) if isinstance(n, ast.If) and "b'='" in norm(n.test)]
+    in_loop = any(isinstance(w, (ast.While, ast.For)) and any(x is e for e in eq for x in ast.walk(w)) for w in ast.walk(h.node))
+    gives_up = any(isinstance(s, ast.Return) and (s.value is None or norm(s.value) == "None") for e in eq for s in e.body)
+    r.idiom("C06.14", bool(eq) and in_loop, "charset-search-loops", h.where, "ContentAttrParser.parse: the handling of `charset` without `=` was not recognised",
+            wrong=[(bool(eq) and gives_up and not in_loop,
+                    "when `charset` is not followed by `=` ContentAttrParser.parse gives up instead of looking for the next `charset`: "
+                    "content=\"charset text/html; charset=utf-8\" declares nothing")], detail={"loops": in_loop})
+
+
 def prescan_tag_rules(ctx):
     """C06.8: the prescan skips over a tag by reading its attributes one by one -- for end tags as well as start tags (a `>`
     inside a quoted attribute value of an end tag does not end it) -- unless the tag name runs into another `<`."""
@@ -629,6 +660,7 @@ def mutants():
                 "        charEncoding = lookupEncoding(self.transport_encoding), \"certain\"\n"
                 "        if charEncoding[0] is not None:\n            return charEncoding\n\n")
     return [
+        T("charset-value-no-semicolon-stop", REL, "self.data.skipUntil(spaceCharactersBytes | frozenset([b\";\"]))", "self.data.skipUntil(spaceCharactersBytes)", "C06.14"),
         T("bom-single-read", "_inputstream.py", "        while len(string) < 4:\n            more = self.rawStream.read(4 - len(string))\n            if not more:\n                break\n            string += more\n", "", "C06.13"),
         T("bom-seek-constant", "_inputstream.py", "        encoding = None\n        seek = 0\n        for bom, name in bomDict.items():\n            if string.startswith(bom):\n                encoding = name\n                seek = len(bom)\n                break\n",
           "        encoding = bomDict.get(string[:3])\n        seek = 3\n        if not encoding:\n            encoding = bomDict.get(string[:2])\n            seek = 2\n", "C06.12"),
